@@ -163,7 +163,70 @@ fn witness_cases(base: &Req, s: &Setup, thorough: bool) -> Vec<Case> {
 }
 
 impl C12 {
+    /// valid requests in a tree that changes between proofs: prove, change the tree (another member's leaf
+    /// written / removed, a batch removal, a range write, depending on the context), prove again for the same
+    /// member, undo the change, prove a third time; every message returned must verify
+    fn sequence(&self, c: &Case) -> Vec<Discrepancy> {
+        let mut out = vec![];
+        let key = |sym: &str| format!("C12/{}/{}/{}", c.entry, c.class, sym);
+        let entry = if c.entry == "witness-seq" { Entry::Witness } else { Entry::Tree };
+        let res = with_rln(|rln| -> Result<Vec<(usize, String)>, String> {
+            let mut bad = vec![];
+            let mut s = setup_tree(rln, &c.req)?;
+            let other = c.req.index ^ 2;
+            for step in 0..3usize {
+                match step {
+                    1 => {
+                        if matches!(c.req.ctx, 4 | 5) {
+                            mutate_after_first_proof(rln, &c.req, &mut s)?;
+                        } else {
+                            rln.set_leaf(other as usize, Cursor::new(codec::fr(&big(555)))).map_err(|e| e.to_string())?;
+                        }
+                    }
+                    2 => {
+                        rln.delete_leaf(other as usize).map_err(|e| e.to_string())?;
+                        if matches!(c.req.ctx, 4 | 5) {
+                            rln.set_leaf(other as usize, Cursor::new(codec::fr(&big(556)))).map_err(|e| e.to_string())?;
+                        }
+                    }
+                    _ => {}
+                }
+                match prove_via(rln, &c.req, &s, entry, false) {
+                    PResult::Panic(pn) => bad.push((step, format!("panic: {pn}"))),
+                    PResult::Err(e) => bad.push((step, format!("refused: {e}"))),
+                    PResult::Ok(m) => {
+                        if m.len() != 288 {
+                            bad.push((step, format!("unverifiable: {} bytes returned", m.len())));
+                            continue;
+                        }
+                        let v1 = v_raw(rln, &m[..288]);
+                        let v2 = v_tree(rln, &with_signal(&m[..288], &c.req.signal));
+                        if !v1.accepted() || !v2.accepted() {
+                            bad.push((step, format!("unverifiable: verify={} verify_rln_proof={}", v1.short(), v2.short())));
+                        }
+                    }
+                }
+            }
+            Ok(bad)
+        });
+        match res {
+            Err(e) => {
+                discard_rln();
+                out.push(Discrepancy { key: key("setup-error"), case: c.to_json(), detail: e });
+            }
+            Ok(bad) => {
+                for (step, what) in bad {
+                    let sym = if what.starts_with("panic") { discard_rln(); "panic" } else if what.starts_with("refused") { "valid-request-refused" } else { "ok-but-unverifiable" };
+                    out.push(Discrepancy { key: key(sym), case: c.to_json(), detail: format!("proof number {} of the sequence (0 = before the tree changed, 1 = after the change, 2 = after a further change): {what}", step) });
+                }
+            }
+        }
+        out
+    }
     fn one(&self, c: &Case) -> Vec<Discrepancy> {
+        if c.entry.ends_with("-seq") {
+            return self.sequence(c);
+        }
         let mut out = vec![];
         let key = |sym: &str| format!("C12/{}/{}/{}", c.entry, c.class, sym);
         let res = with_rln(|rln| -> Result<(PResult, Option<VResult>, Option<VResult>), String> {
@@ -257,6 +320,17 @@ impl Prop for C12 {
             let s = with_rln(|rln| setup_tree(rln, b))?;
             cases.extend(witness_cases(b, &s, !q));
         }
+        // valid requests proved repeatedly while the tree changes in between
+        let mut nseq = 0usize;
+        for b in bases.iter().take(2) {
+            for ctxn in 0u8..=6 {
+                for entry in ["request-seq", "witness-seq"] {
+                    let r = Req { ctx: ctxn, ..b.clone() };
+                    cases.push(Case { entry: entry.into(), class: "valid".into(), req: r, bytes: vec![], ci: None });
+                    nseq += 1;
+                }
+            }
+        }
         // partition by the reference generator (evidence only: the oracle does not need it)
         let verif = ctx.verif_dir.clone();
         let part = par_map(&cases, ncpu(), |_, c| match &c.ci {
@@ -279,9 +353,10 @@ impl Prop for C12 {
         ev.set("unsatisfiable_per_reference", json!(unsat));
         ev.set("undecodable_or_no_circuit_inputs", json!(undec));
         ev.set("request_classes", json!(classes));
+        ev.set("valid_sequences_with_tree_changes", json!(nseq));
         ev.set("exhaustive", json!(true));
         ev.set("deviation_bound", json!(1));
-        ev.set("rule", json!("for each base request: every single departure into the invalid region - (limit,id) in 11 pairs around the comparison and the 16-bit range, index in {2^20, 2^20+1, 2^32, 2^63, 2^64-1}, declared signal length in {len+1, 2^63, 2^64-1, wrapping}, every (quick: every 3rd) truncation of the request, trailing byte; at witness level for generate_rln_proof_with_witness and prove: the same (limit,id) pairs, path / direction vector lengths {0,1,19,21} (together and separately), direction values {2,3,255} at levels {0,10,19}, every (quick: every 7th) truncation, trailing bytes, count fields larger than the buffer; the result must be an error or a message that verifies; success with an unverifiable proof and panics are violations; distinct_nontrivial = cases other than the valid controls"));
+        ev.set("rule", json!("for each base request: every single departure into the invalid region - (limit,id) in 11 pairs around the comparison and the 16-bit range, index in {2^20, 2^20+1, 2^32, 2^63, 2^64-1}, declared signal length in {len+1, 2^63, 2^64-1, wrapping}, every (quick: every 3rd) truncation of the request, trailing byte; at witness level for generate_rln_proof_with_witness and prove: the same (limit,id) pairs, path / direction vector lengths {0,1,19,21} (together and separately), direction values {2,3,255} at levels {0,10,19}, every (quick: every 7th) truncation, trailing bytes, count fields larger than the buffer; valid requests in 7 tree contexts proved three times through generate_rln_proof and through get_serialized_rln_witness + generate_rln_proof_with_witness with the tree changed between the proofs; the result must be an error or a message that verifies; success with an unverifiable proof and panics are violations; distinct_nontrivial = cases other than the valid controls"));
         for c in cases.iter().filter(|c| c.class != "truncated").step_by(17).take(5) {
             let mut j = c.to_json();
             j.as_object_mut().unwrap().remove("bytes_hex");
